@@ -206,7 +206,7 @@ def run(ctx):
                     note='file-based reload = dictionary reference model for every reachable directory state')
     rng = np.random.RandomState(ctx.seed + 10)
     with tmp_dir(ctx) as d:
-        gens = [('Gen_World.cfg', None), ('Sim_World.cfg', 'num=%d' % (15 if ctx.quick else 200))]
+        gens = [('Gen_World.cfg', None), ('Sim_World.cfg', 'num=%d' % (15 if ctx.quick else 1500))]
         for cfg, sim in gens:
             kw = dict(simulate=sim, depth=12, workers=1, seed=ctx.seed + 10) if sim else {}
             res, path, n = ctx.generate('World', cfg, timeout=1800, **kw)
@@ -216,7 +216,7 @@ def run(ctx):
                 uniq = {}
                 for c in cases:
                     uniq.setdefault(repr(c['hist']), c)
-                cases = list(uniq.values())[:(150 if ctx.quick else 3000)]
+                cases = list(uniq.values())[:(150 if ctx.quick else 6000)]
             elif ctx.quick and len(cases) > 1500:
                 idx = set(rng.choice(len(cases), size=1500, replace=False).tolist())
                 cases = [c for j, c in enumerate(cases) if j in idx]
@@ -232,7 +232,7 @@ def run(ctx):
                 if k % 700 == 0:
                     ctx.sample(case)
         recs = []
-        for k in range(8 if ctx.quick else 80):
+        for k in range(8 if ctx.quick else 400):
             with ctx.guard('reload', dict(random_history=k)):
                 recs += random_trace(ctx, d, rng, k, len(recs) + 1, 25)
             if ctx.abort:
